@@ -1651,6 +1651,8 @@ def _judge_actuation(pend, before, after, owners, paths, meta, P, ticked, down=(
         if i in paths:
             if P.can(d["p"], "actuate", paths[i], ticked) is False:
                 fails.append("C04-actuate: p%d actuated %s without actuate permission" % (d["p"], paths[i]))
+                fails.append("C09-permission: the request of p%d for %s reached provider %d although the caller's "
+                             "actuate permission does not cover it" % (d["p"], paths[i], h))
             m = meta[i]
             if m["etype"] != 2:
                 fails.append("C09-actuator: %s is not an actuator but an actuation was forwarded" % paths[i])
